@@ -383,20 +383,16 @@ let () =
   register "full_like" (function [a; v] -> const_h (getI v) (fst (getA a)) | _ -> failwith "full_like");
   register "zeros_like" (function [a] -> const_h zero (fst (getA a)) | _ -> failwith "zeros_like");
   register "ones_like" (function [a] -> const_h one (fst (getA a)) | _ -> failwith "ones_like");
-  let arange_h ?(fl=false) ?(unsigned=false) start stop p q =
+  let arange_h ?(fl=false) start stop p q =
     let show_elems n f = "ok " ^ string_of_z n ^ " ;" ^ (if Z.eqb n zero then "" else " " ^ String.concat "," (List.init (iz n) f)) in
     let el i = float_str (arange_elem start p q (zi i)) q in
     let elm i = ignore fl; el i in
-    let m = (match (if unsigned then arange_len_unsigned else arange_len) start stop p q with Val n -> show_elems n elm | _ -> "trap") in
+    let m = (match arange_len start stop p q with Val n -> show_elems n elm | _ -> "trap") in
     let sp = if Z.eqb p zero then "unspecified" else
         (let num = Z.mul (Z.sub stop start) q in
          let n = Z.max zero (Z.opp (Z.div (Z.opp num) p)) in show_elems n el) in
-    r3 m sp (not (Z.eqb p zero) && not (unsigned && Z.ltb stop start)) in
-  (* argument form u.u (size_t start and stop): entry id "arange.u<start>.u<stop>.<step>" *)
-  register "arange_f" (function [id; a; b; p] ->
-      let f = String.split_on_char '.' (getS id) in
-      let u = (match f with _ :: x :: y :: _ -> String.length x > 0 && x.[0] = 'u' && String.length y > 0 && y.[0] = 'u' | _ -> false) in
-      arange_h ~unsigned:u (getI a) (getI b) (getI p) one | _ -> failwith "arange_f");
+    r3 m sp (not (Z.eqb p zero)) in
+  register "arange_f" (function [_; a; b; p] -> arange_h (getI a) (getI b) (getI p) one | _ -> failwith "arange_f");
   register "tarange" (function [dt; a; b; p; q] -> arange_h ~fl:(is_fl (dtype_of (getS dt))) (getI a) (getI b) (getI p) (getI q) | _ -> failwith "tarange");
   register "arange" (function [a; b; p; q] -> arange_h (getI a) (getI b) (getI p) (getI q) | _ -> failwith "arange");
   register "arange_e" (function [a; b; p] -> arange_h (getI a) (getI b) (getI p) one | _ -> failwith "arange_e");
